@@ -345,6 +345,12 @@ theorem C10_gen : Gen.smNewRegs = [("\"CER\"", "handleCER(sm)"), ("\"DWR\"", "ha
     state of its own to remember an earlier connection's handshake in) and its `ServeDIAM` looks
     the peer metadata up in the context of the connection the message came in on, every time -/
 theorem C10_gate_gen : Gen.handshakeGateType = "diam.HandlerFunc" ∧
-    Gen.handshakeGateBody = ["if _, ok := smpeer.FromContext(c.Context()); ok { f(c, m) }"] := by decide
+    Gen.handshakeGateBody = ["if _, ok := smpeer.FromContext(c.Context()); ok { f(c, m) }"] ∧
+    -- the handlers run on the connection's reader: the only send that may block is the client's
+    -- once-protected report into its own buffered `errc` (C12_noblock); notifications on channels
+    -- nobody has to read (HandshakeNotify, error reports, the watchdog's ack) never block a reader
+    Gen.channelSends = [("diam:ServeMux.Error", "mux.e", "select-default"),
+      ("diam/sm:handleCEA", "errc", "blocking"), ("diam/sm:handleCEA", "sm.hsNotifyc", "select-default"),
+      ("diam/sm:handleCER", "sm.hsNotifyc", "select-default"), ("diam/sm:handleDWA", "dwac", "select-default")] := by decide
 
 end DV.Props.C10
